@@ -16,119 +16,12 @@
 From Coq Require Import List ZArith Lia Bool.
 From Coq Require Import ZifyBool.
 From GL Require Import lib.GoLite.
-From GLGEN Require Import Gen_xbinary_fn.
+From GLGEN Require Import XB_GenTotal Gen_xbinary_fn C16_GenFn_fixed C16_GenFn_uint.
 Import ListNotations.
 Open Scope Z_scope.
 Ltac Zify.zify_post_hook ::= Z.div_mod_to_equations.
 
-(* the shape of a total decoder result; [P n v h'] is what holds on success *)
-Definition dec_total {V} (h : heap) (len : Z) (P : Z -> V -> heap -> Prop)
-           (o : outcome ((Z * V * error) * heap)) : Prop :=
-  exists n v e h', o = Ok ((n, v, e), h') /\
-    ((e = Err /\ n = 0 /\ h' = h) \/ (e = ENil /\ 1 <= n <= len /\ P n v h')).
-
-Definition scalar (w : Z) (h : heap) : Z -> Z -> heap -> Prop :=
-  fun _ v h' => h' = h /\ 0 <= v < 2 ^ w.
-
-Ltac total_done :=
-  unfold ret; do 4 eexists; split; [reflexivity|];
-  first [ left; repeat split; reflexivity | right; split; [reflexivity|split; [lia|]] ].
-
-(** * Fixed width *)
-
-Lemma be_val_range l : Forall (fun b => 0 <= b < 256) l -> 0 <= be_val l < 2 ^ (8 * zlen l).
-Proof.
-  induction 1 as [|b t Hb _ IH]; [cbn; lia|].
-  cbn [be_val]. unfold zlen in *. cbn [length].
-  replace (8 * Z.of_nat (S (length t))) with (8 + 8 * Z.of_nat (length t)) by lia.
-  rewrite Z.pow_add_r by lia. rewrite Z.shiftl_mul_pow2 by lia.
-  rewrite Z.lor_comm. rewrite zlor_disjoint by lia. change (2 ^ 8) with 256. nia.
-Qed.
-
-Theorem gen_UnmarshalByte_total : forall h buf, wf_slice h buf ->
-  Forall (fun b => 0 <= b < 256) (sl_get h buf) ->
-  dec_total h (s_len buf) (scalar 8 h) (Gen.UnmarshalByte buf h).
-Proof.
-  intros h buf W Hb. pose proof W as (Wa & Wo & Wl & Wc & Wm).
-  pose proof (sl_get_len h buf W) as L. unfold zlen in L.
-  unfold Gen.UnmarshalByte. go_run; total_done.
-  unfold scalar. split; [reflexivity|]. change (2 ^ 8) with 256.
-  rewrite Forall_forall in Hb. apply Hb. unfold znth. apply nth_In. lia.
-Qed.
-
-Lemma firstn_bytes k l : Forall (fun b => 0 <= b < 256) l -> Forall (fun b => 0 <= b < 256) (firstn k l).
-Proof.
-  revert l. induction k as [|k IH]; intros l H; [constructor|].
-  destruct H as [|b t Hb Ht]; [constructor|]. cbn [firstn]. constructor; [exact Hb|apply IH; exact Ht].
-Qed.
-
-Ltac fixed_total k W Hb :=
-  let L := fresh "L" in
-  pose proof (sl_get_len _ _ W) as L; unfold zlen in L;
-  go_run; total_done; unfold scalar; split; [reflexivity|];
-  match goal with |- 0 <= be_val ?l < _ =>
-    let R := fresh "R" in
-    pose proof (be_val_range l (firstn_bytes _ _ Hb)) as R;
-    unfold zlen in R; rewrite firstn_length in R;
-    replace (Nat.min k (length (sl_get _ _))) with k in R by lia; exact R
-  end.
-
-Theorem gen_UnmarshalUint16_total : forall h buf, wf_slice h buf ->
-  Forall (fun b => 0 <= b < 256) (sl_get h buf) ->
-  dec_total h (s_len buf) (scalar 16 h) (Gen.UnmarshalUint16 buf h).
-Proof.
-  intros h buf W Hb. pose proof W as (Wa & Wo & Wl & Wc & Wm).
-  unfold Gen.UnmarshalUint16. fixed_total 2%nat W Hb.
-Qed.
-
-Theorem gen_UnmarshalUint32_total : forall h buf, wf_slice h buf ->
-  Forall (fun b => 0 <= b < 256) (sl_get h buf) ->
-  dec_total h (s_len buf) (scalar 32 h) (Gen.UnmarshalUint32 buf h).
-Proof.
-  intros h buf W Hb. pose proof W as (Wa & Wo & Wl & Wc & Wm).
-  unfold Gen.UnmarshalUint32. fixed_total 4%nat W Hb.
-Qed.
-
-Theorem gen_UnmarshalUint64_total : forall h buf, wf_slice h buf ->
-  Forall (fun b => 0 <= b < 256) (sl_get h buf) ->
-  dec_total h (s_len buf) (scalar 64 h) (Gen.UnmarshalUint64 buf h).
-Proof.
-  intros h buf W Hb. pose proof W as (Wa & Wo & Wl & Wc & Wm).
-  unfold Gen.UnmarshalUint64. fixed_total 8%nat W Hb.
-Qed.
-
-(** * UnmarshalUint: an invariant of the generated loop *)
-
-Theorem gen_UnmarshalUint_total : forall h buf, wf_slice h buf ->
-  dec_total h (s_len buf) (scalar 64 h) (Gen.UnmarshalUint buf h).
-Proof.
-  intros h buf W. pose proof W as (Wa & Wo & Wl & Wc & Wm).
-  unfold Gen.UnmarshalUint. cbv beta iota zeta.
-  match goal with |- dec_total _ _ _ (iter ?f ?body ?s0 _) =>
-    destruct (iter_inv body
-      (fun st h' => let '(res, idx, shft) := st in
-                    h' = h /\ 0 <= idx <= s_len buf /\ 0 <= res < 18446744073709551616)
-      (fun r h' => dec_total h (s_len buf) (scalar 64 h) (Ok (r, h')))
-      (fun st _ => let '(_, idx, _) := st in Z.to_nat (s_len buf - idx))) with f s0 h
-      as (r & h' & E & P)
-  end.
-  - (* the body keeps the invariant, decreases len(buf)-idx, never panics *)
-    intros [[res idx] shft] h0 (-> & Hidx & Hres).
-    unfold Gen.UnmarshalUint_loop1.
-    assert (Hacc : forall x s, 0 <= Z.lor res (shl u64 64 x s) < 18446744073709551616).
-    { intros x s. apply (zlor_range _ _ 64); [lia|exact Hres|apply shl_u64_range]. }
-    go_run; unfold ret; cbv beta iota zeta.
-    all: try (split; [repeat split; try lia; apply Hacc|lia]).
-    all: do 4 eexists; (split; [reflexivity|]).
-    all: first [ left; repeat split; reflexivity
-               | right; split; [reflexivity|split; [lia|split; [reflexivity|apply Hacc]]] ].
-  - repeat split; lia.
-  - lia.
-  - rewrite E. exact P.
-Qed.
-Print Assumptions gen_UnmarshalUint_total.
-
-(** * UnmarshalBytes / UnmarshalString *)
+Ltac Zify.zify_post_hook ::= Z.div_mod_to_equations.
 
 Lemma gen_SliceCopy_spec h v : wf_slice h v ->
   Gen.SliceCopy v h = Ok (mkSl (length h) 0 (s_len v) (s_len v), h ++ [sl_get h v]).
@@ -141,17 +34,6 @@ Proof.
     replace n with (length (sl_get h v)) by lia end.
   rewrite firstn_all, sl_put_new by (unfold zlen; lia). reflexivity.
 Qed.
-
-(* the returned slice: a Go slice in the final heap holding buf[n-len(res) : n];
-   the sub-slice of buf itself (heap unchanged) when newBuf is false, a fresh
-   array (the old heap is a prefix of the new one) when newBuf is true *)
-Definition bytes_ok (h : heap) (buf : gslice) (newBuf : bool) : Z -> gslice -> heap -> Prop :=
-  fun n res h' =>
-    wf_slice h' res /\ 0 <= s_len res <= n /\
-    sl_get h' res = zsub (sl_get h buf) (n - s_len res) (s_len res) /\
-    (if newBuf
-     then s_arr res = length h /\ h' = h ++ [sl_get h' res]
-     else h' = h /\ s_arr res = s_arr buf /\ s_off res = s_off buf + (n - s_len res)).
 
 Theorem gen_UnmarshalBytes_total : forall h buf newBuf, wf_slice h buf ->
   dec_total h (s_len buf) (bytes_ok h buf newBuf) (Gen.UnmarshalBytes buf newBuf h).
@@ -184,6 +66,7 @@ Proof.
              split; [rewrite G; f_equal; lia|repeat split; lia])
     end.
 Qed.
+
 Print Assumptions gen_UnmarshalBytes_total.
 
 Theorem gen_UnmarshalString_total : forall h buf newBuf, wf_slice h buf ->
@@ -195,8 +78,6 @@ Proof.
   - total_done.
   - total_done. exact P.
 Qed.
-
-(** * The headline statement of C16 over the generated decoders *)
 
 Theorem gen_decoders_total : forall h buf, wf_slice h buf ->
   Forall (fun b => 0 <= b < 256) (sl_get h buf) ->
@@ -217,9 +98,11 @@ Proof.
   - intros nb. apply gen_UnmarshalBytes_total; assumption.
   - intros nb. apply gen_UnmarshalString_total; assumption.
 Qed.
+
 Print Assumptions gen_decoders_total.
 
 (* no panic, no fuel exhaustion, whatever the input *)
+
 Corollary gen_decoders_never_panic : forall h buf newBuf, wf_slice h buf ->
   Gen.UnmarshalUint buf h <> GoPanic /\ Gen.UnmarshalUint buf h <> NoFuel /\
   Gen.UnmarshalBytes buf newBuf h <> GoPanic /\ Gen.UnmarshalBytes buf newBuf h <> NoFuel /\
